@@ -22,7 +22,14 @@ build_variant() {
     asan)     args=(-tags verif -asan) ;;
     *) echo "unknown build variant $v" >&2; return 2 ;;
   esac
-  ( cd "$ROOT/harness" && go build "${args[@]}" -o "$out" ./cmd/vcheck ) 2>"$ROOT/.bin/build-$v.log"
+  local modfile=()
+  if [ -n "${VERIF_REPO:-}" ] && [ "$VERIF_REPO" != /repo ]; then
+    # background sweeps (vp run --with-repo) build against a snapshot of the repository
+    sed "s#=> /repo#=> $VERIF_REPO#" "$ROOT/harness/go.mod" > "$ROOT/.bin/alt.mod"
+    cp "$ROOT/harness/go.sum" "$ROOT/.bin/alt.sum"
+    modfile=(-modfile="$ROOT/.bin/alt.mod")
+  fi
+  ( cd "$ROOT/harness" && go build "${modfile[@]}" "${args[@]}" -o "$out" ./cmd/vcheck ) 2>"$ROOT/.bin/build-$v.log"
   local rc=$?
   if [ $rc -ne 0 ]; then
     echo "BUILD-FAILED variant=$v (see $ROOT/.bin/build-$v.log)" >&2
